@@ -543,6 +543,15 @@ def construction_sites(ctx, chk):
             if e["kind"] != "new" or e["cls"] not in (SCORES, GROUP, FRAUD):
                 continue
             flag = e["kwargs"].get("is_sorted", Const(False))
+            if not isinstance(flag, Const) and hasattr(flag, "key"):
+                # a computed flag: the path that reaches this construction may already have decided it
+                for c_, t_ in o.pc:
+                    if c_.key == flag.key:
+                        flag = Const(bool(t_))
+                        break
+                    if c_.key == negate(flag).key:
+                        flag = Const(not t_)
+                        break
             if flag == Const(False):
                 continue
             args = dict(e["kwargs"])
@@ -558,6 +567,8 @@ def construction_sites(ctx, chk):
                     chk.hold("R01.4", inst, "%s = %s is ascending" % (nm, show(v, 140)))
                 elif st == "unknown":
                     chk.unknown("R01.4", "cannot decide order of %s = %s at %s" % (nm, show(v, 200), label))
+                elif not isinstance(flag, Const):
+                    chk.unknown("R01.4", "is_sorted=%s is not decided on the path that passes the unsorted %s = %s at %s" % (show(flag, 80), nm, show(v, 120), label))
                 else:
                     chk.violation("R01.4", label, "%s(is_sorted=%s):%s" % (e["cls"].split(".")[-1], show(flag, 40), nm),
                                   "%s = %s" % (nm, show(v, 300) if v is not None else "missing"),
